@@ -27,7 +27,56 @@ CONTRACTS = ["bytes"]
 
 
 def plan(tier, seed):
-    return plan_items(tier, seed, n_gen_quick=10, n_gen_thorough=300, n_quick=120, n_thorough=800) + [{"kind": "w0"}]
+    return plan_items(tier, seed, n_gen_quick=10, n_gen_thorough=300, n_quick=120, n_thorough=800) + [{"kind": "w0"}, {"kind": "directed"}]
+
+
+def run_directed() -> Result:
+    """(a) payload lengths at every length-prefix boundary (127/128, 16383/16384) in string, bytes, packed, nested and map
+    positions of the matrix schema; (b) the bundled well-known message classes measured as TOP-LEVEL messages"""
+    from .. import corpus
+
+    res = Result()
+    b = corpus.build_item({"kind": "matrix"})
+    try:
+        names = {mi.full_name: attr_names(b.bp_class(mi.full_name)) for mi in b.user_messages()}
+        sc, rp, ne, mp = (b.msgs[".vf.matrix." + n] for n in ("Scalars", "Repeateds", "Nested", "Maps"))
+
+        def attr(mi, proto_name):
+            return names[mi.full_name][next(f.number for f in mi.fields if f.name == proto_name)]
+
+        for n in (125, 126, 127, 128, 129, 16381, 16382, 16383, 16384, 16385):
+            cases = [
+                ("string", b.bp_class(sc.full_name)(**{attr(sc, "f_string"): "s" * n})),
+                ("bytes", b.bp_class(sc.full_name)(**{attr(sc, "f_bytes"): b"b" * n})),
+                ("packed", b.bp_class(rp.full_name)(**{attr(rp, "r_bool"): [True] * n})),
+                ("nested", b.bp_class(ne.full_name)(**{attr(ne, "sub"): b.bp_class(".vf.matrix.Sub")(s="n" * max(0, n - 3))})),
+                ("map-value", b.bp_class(mp.full_name)(**{attr(mp, "v_string"): {"k": "v" * max(0, n - 5)}})),
+                ("repeated-string", b.bp_class(rp.full_name)(**{attr(rp, "r_string"): ["r" * n, ""]})),
+            ]
+            for label, m in cases:
+                res.note("len_checked")
+                res.note("length_boundary_cases")
+                res.case(f"boundary:{label}:{n}")
+                for kind, detail in _observe(m):
+                    res.violation(kind.split("-raised")[0], [label, f"payload-length-{'127' if n < 1000 else '16383'}-boundary", kind],
+                                  f"{label} with payload length around {n}: {detail}", {"kind": "directed"})
+        import betterproto.lib.google.protobuf as g
+
+        tops = [g.Struct(fields={"a": g.Value(number_value=1.5), "b": g.Value(string_value="x"), "c": g.Value(bool_value=True)}),
+                g.Struct(), g.Value(string_value="v"), g.ListValue(values=[g.Value(number_value=1), g.Value(number_value=2)]),
+                g.Any(type_url="t", value=b"abc"), g.FieldMask(paths=["a", "b.c"]), g.Empty(), g.Int64Value(value=-1), g.StringValue(value="s"),
+                g.BytesValue(value=b"\x00" * 5), g.Timestamp(seconds=-1, nanos=5), g.Duration(seconds=3, nanos=-7), g.BoolValue(value=True),
+                g.DoubleValue(value=-0.0), g.SourceContext(file_name="f")]
+        for m in tops:
+            res.note("len_checked")
+            res.note("wellknown_toplevel_cases")
+            res.case(f"wkt:{type(m).__name__}:{bytes(m).hex()[:20]}")
+            for kind, detail in _observe(m):
+                res.violation(kind.split("-raised")[0], ["well-known:" + type(m).__name__, "top-level", kind],
+                              f"betterproto.lib.google.protobuf.{type(m).__name__} as a top-level message: {detail}", {"kind": "directed"})
+    finally:
+        b.cleanup()
+    return res
 
 
 def _observe(m):
@@ -226,6 +275,8 @@ def check_case(b, bp, ref, mi, tree, res: Result, w, rng):
 
 
 def run_shard(shard):
+    if shard.get("kind") == "directed":
+        return run_directed()
     if shard.get("kind") == "w0":
         from ..w0 import run_w0
 
@@ -234,6 +285,8 @@ def run_shard(shard):
 
 
 def replay(w):
+    if w.get("kind") == "directed":
+        return run_directed().violations
     if w.get("kind") == "w0":
         from ..w0 import run_w0
 
